@@ -76,6 +76,9 @@ type vH struct {
 	dialErr   func(k int) error   // outcome of the k-th dial (nil = ok)
 	connSetup func(c *vfake.Conn) // applied to every new conn
 	noMAC     bool
+	// macPerGen: the interface's hardware address differs from one dial to the
+	// next (same index): vMACOf(generation), none for some.
+	macPerGen bool
 	ifIndex   int // 0 = a non-existent index
 
 	watchC chan netstate.Change
@@ -146,6 +149,9 @@ func (h *vH) dialFunc() (*system.DialContext, error) {
 	}
 	if !h.noMAC {
 		ifi.HardwareAddr = vMAC
+	}
+	if h.macPerGen {
+		ifi.HardwareAddr = vMACOf(c.Gen)
 	}
 	return &system.DialContext{Conn: c, Interface: ifi, IP: netip.MustParseAddr("fe80::1")}, nil
 }
@@ -362,3 +368,13 @@ const (
 	vMaxInitialAdv         = 3
 	vMaxInitialAdvInterval = 16 * time.Second
 )
+
+// vMACOf: the hardware address the interface has in its g-th life when it
+// changes between dials (a bond whose active slave changed, a MAC set by the
+// administrator while the link was down; none at all in every fourth life).
+func vMACOf(g int) net.HardwareAddr {
+	if g%4 == 3 {
+		return nil
+	}
+	return net.HardwareAddr{0x02, 0x00, 0x00, 0xaa, 0xbb, byte(g)}
+}
